@@ -24,7 +24,7 @@ avars == <<files, evalLock, fileLock, mpc, cids, pc, ids, snap, regd, sess, cras
 
 A == INSTANCE Aggregator WITH
         Aggs <- Scen.aggs, Calls <- Scen.calls, InitOut <- Scen.initout,
-        MaxCrashes <- 1000, MaxSessions <- 1000, NormalExit <- Scen.normalexit,
+        MaxCrashes <- 1000, MaxSessions <- 1000, NormalExit <- Scen.normalexit, MaxWorkerKills <- 0,
         HeaderOnEmpty <- Scen.headeronempty, OwnBuffer <- Scen.ownbuffer, HeaderNoClaim <- Scen.headernoclaim
 
 Ev == Traces[tid].ev
